@@ -224,12 +224,6 @@ theorem holds_H0_empty (t : Tid) : Holds (s.system.H0 t) EmptyS := fun _ h => h.
 theorem kids_rund : s.kids oRund = [tL] := by
   simp [kids, oRund, clsOf, enc]
 
-theorem rep_wait_rund : Rep (waitPay (mkSpec s.par) s.kids oRund) TailS := by
-  intro k
-  rw [mem_waitPay, kids_rund]
-  simp only [List.mem_singleton, exists_eq_left]
-  exact rep_done_rund s k
-
 theorem typedR_spawns :
     HT (mkSpec s.par) s.kids tR s.R0 [.lock oCfg, .rd vVip, .unlock oCfg, .wgAdd oRund, .spawn tP, .spawn tL]
       (ClientS s.n) := by
@@ -276,7 +270,7 @@ theorem typedR : HT (mkSpec s.par) s.kids tR s.R0 s.progR EmptyS := by
   · apply HT.range_const; intro i hi
     exact HT.rdv (c := 8) i 1 (by decide) (by decide) (Or.inr rfl) (by tokarith)
   · exact HT.rdv (c := 9) 0 1 (by decide) (by decide) (Or.inr rfl) (by tokarith)
-  · refine HT.cons (HT.close0 rfl) (HT.cons (HT.wgWait (rep_wait_rund s)) ?_)
+  · refine HT.cons (HT.close0 rfl) (HT.cons (HT.recvC (rep_close_rundone s)) ?_)
     exact (HT.rdv (c := 11) 0 0 (by decide) (by decide) (Or.inl rfl) (by tokarith)).post (by toksub)
 
 /-! ### every thread id -/
